@@ -203,7 +203,7 @@ def run(shard, rec):
                 return [(type(a).order, int(a.value)) for a in sh]
         if not rec.wants(case):
             continue
-        w = sim.World(m, t, no_prss, seed=sseed, policy=policy, history=tuple(shard['history']) if shard.get('history') else 'auto', on_observed=calls.clear).run(program)
+        w = sim.World(m, t, no_prss, seed=sseed, policy=policy, history=tuple(shard['history']) if shard.get('history') else 'auto', on_observed=calls.clear).run(program, cpu_seconds=120)      # these worlds take well under a second of CPU on the unchanged tree
         rec.count('programs_run')
         res = w.ok_results()
         what0 = f'{shard["name"]} {kind} program {pi}'
